@@ -31,6 +31,71 @@ def sources(s, os_type):
     return res
 
 
+def extra_members(ctx, rnd, strings):
+    """(stored string, header bytes) beyond the enumeration of sources() -- audit round 2:
+    * every byte value 1..255 in the role of a would-be separator (a X .. X b X) under every OS type, through the level-1
+      in-header name, path + file-name headers of levels 2 and 3 and a symlink: a fix-up that turns some other byte into
+      '/' for some OS type must not bring '..' or a '/' in the name back;
+    * the file-name and path headers at header levels 1 and 3, a level-1 header with both an in-header name and the
+      headers, a level-3 file and a level-3 symlink (sources() has them at level 2 only);
+    * strings of 200 .. 70000 bytes with '.', '..' and empty components at the start, in the middle and at the end."""
+    res = []
+    link = struct.pack("<H", 0o120777)
+    # 1. any byte as separator x any OS type
+    for x in range(1, 256):
+        X = bytes([x])
+        s = b"a" + X + b".." + X + b"b" + X + b"." + X
+        for o in hdrgen.OSES:
+            base = {"clen": 0, "length": 0, "crc": 0, "attr": 0x20, "os": o}
+            res.append((s, dict(base, level=1, method=b"-lh0-", time=0x21, name=s + b"n", exts=[])))
+            res.append((s, dict(base, level=2, method=b"-lh0-", time=1, exts=[(2, s), (1, s + b"n")])))
+            res.append((s, dict(base, level=3, method=b"-lh0-", time=1, exts=[(1, s + b"n"), (2, s)])))
+            res.append((s, dict(base, level=2, method=b"-lhd-", time=1, exts=[(0x50, link), (2, s), (1, s + b"|" + s)])))
+        for area in (b"", bytes([ord('U'), 0]) + struct.pack("<IHHH", 7, 0o100644, 1, 2)):
+            res.append((s, dict(clen=0, length=0, crc=0, attr=0x20, os=0, level=0, method=b"-lh0-", time=0x21, name=s + b"n", area=area)))
+    # 2. levels / combinations not enumerated by sources()
+    short = [t for t in strings if 0 < len(t) <= (4 if ctx.quick else 5)] + [t for t in strings if len(t) >= 8]
+    for s in short:
+        o = rnd.choice(hdrgen.OSES)
+        base = {"clen": 0, "length": 0, "crc": 0, "attr": 0x20, "os": o}
+        res.append((s, dict(base, level=1, method=b"-lh0-", time=0x21, name=b"n", exts=[(1, s)])))
+        res.append((s, dict(base, level=1, method=b"-lh0-", time=0x21, name=b"n", exts=[(2, s)])))
+        if len(s) <= 100:
+            res.append((s, dict(base, level=1, method=b"-lh0-", time=0x21, name=s, exts=[(2, s), (1, s)])))
+            res.append((s, dict(base, level=1, method=b"-lhd-", time=0x21, name=s, exts=[(0x50, link), (1, s + b"|" + s)])))
+        res.append((s, dict(base, level=3, method=b"-lh0-", time=1, exts=[(2, s), (1, s)])))
+        res.append((s, dict(base, level=3, method=b"-lhd-", time=1, exts=[(0x50, link), (2, s), (1, s + b"|t")])))
+    # 3. long strings
+    toks = [b"..", b".", b"", b"a", b"bb", b"..", b"x" * 50, b"y" * 300]
+    for n in [200, 225, 300, 1025, 1500, 5000, 40000, 70000]:
+        for sep in (b"/", b"\\", b"\xff"):
+            for shape in range(3):
+                body = []
+                ln = 0
+                while ln < n:
+                    t = rnd.choice(toks)
+                    body.append(t)
+                    ln += len(t) + 1
+                bad = [b"..", b"..", b".", b""]
+                if shape == 0:
+                    body = bad + body
+                elif shape == 1:
+                    body = body + bad
+                else:
+                    body = body[:len(body) // 2] + bad + body[len(body) // 2:]
+                s = sep.join(body) + sep
+                base = {"clen": 0, "length": 0, "crc": 0, "attr": 0x20, "os": rnd.choice(hdrgen.OSES)}
+                if len(s) <= 228:
+                    res.append((s, dict(base, level=1, method=b"-lh0-", time=0x21, name=s + b"n", exts=[])))
+                    res.append((s, dict(base, level=0, method=b"-lh0-", time=0x21, name=s + b"n")))
+                if len(s) < 32000:
+                    res.append((s, dict(base, level=2, method=b"-lh0-", time=1, exts=[(2, s), (1, s)])))
+                    res.append((s, dict(base, level=1, method=b"-lh0-", time=0x21, name=b"n", exts=[(2, s), (1, s)])))
+                res.append((s, dict(base, level=3, method=b"-lh0-", time=1, exts=[(1, s), (2, s)])))
+                res.append((s, dict(base, level=3, method=b"-lhd-", time=1, exts=[(0x50, link), (2, s), (1, b"l|t")])))
+    return [(s, lb.build_header(f)) for (s, f) in res if len(s) < 190], [(s, lb.build_header(f)) for (s, f) in res if len(s) >= 190]
+
+
 def parse_records(line):
     recs = []
     for part in line.split(" ; "):
@@ -41,6 +106,12 @@ def parse_records(line):
                 d[k] = v
             recs.append(d)
     return recs
+
+
+def complete_line(c):
+    """a driver line that ends with its end record (E n=.. again=..); anything else is a crash, a hang or a line cut short"""
+    last = c.split(" ; ")[-1]
+    return (last.startswith("E n=") and " again=" in last) or c in ("E streamfail", "E newfail")
 
 
 def unhexs(v):
@@ -73,6 +144,10 @@ def run(ctx):
         for s in strings:
             for f in sources(s, rnd.choice([0, ord('M'), ord('U'), ord(' '), ord('2'), ord('a'), ord('K')])):
                 members.append((s, lb.build_header(f)))
+        extra, long_members = extra_members(ctx, random.Random(ctx.seed * 15485863 + 1111), strings)
+        dist["extra_members"] = len(extra)
+        dist["long_members_c_only"] = len(long_members)
+        members += extra
         lines, spans = [], []
         i = 0
         while i < len(members):
@@ -88,6 +163,7 @@ def run(ctx):
         bad_paths = 0
         total_cases = 0
         cur_lines, cur_spans = lines, spans
+        singled = 0          # archives re-run member by member after an abnormal line (the first three only)
         while cur_lines and rounds < 60:
             rounds += 1
             co = common.run_lines_parallel([cexe], cur_lines)
@@ -97,10 +173,30 @@ def run(ctx):
                 total_cases += 1
                 if c != m:
                     mism.append({"case": ln[:3000], "c": c[:600], "model": m[:600]})
-                recs = parse_records(c)
-                if not c.startswith("H ") and not c.startswith("E "):
+                if not complete_line(c) and singled >= 3:
                     viol.append({"property": PID, "kind": "abnormal", "case": ln[:3000], "observed": c[:300], "sig": "crash"})
                     continue
+                if not complete_line(c):
+                    singled += 1
+                    # the driver died in this archive (its line is cut short, or it -- or, blamed by position, the archive before
+                    # it -- is reported as CRASH/HANG): run the members one by one to find the header that does it
+                    singles = ["hdr cbskip %s" % h.hex() for _, h in members[start:start + cnt]]
+                    found = False
+                    for sl, sc in zip(singles, common.run_lines_parallel([cexe], singles)):
+                        total_cases += 1
+                        if not complete_line(sc):
+                            viol.append({"property": PID, "kind": "abnormal", "case": sl, "observed": sc[:300], "sig": "crash"})
+                            found = True
+                            continue
+                        for r in parse_records(sc):
+                            nrecs += 1
+                            if not lb.name_ok(unhexs(r["fn"])) or not lb.path_ok(unhexs(r["p"])):
+                                viol.append({"property": PID, "kind": "path-invariant", "case": sl, "filename": r["fn"], "path": r["p"],
+                                             "sig": "path:" + r["p"][:16]})
+                    if not found and not c.startswith("CRASH"):
+                        viol.append({"property": PID, "kind": "abnormal", "case": ln[:3000], "observed": c[:300], "sig": "crash"})
+                    continue
+                recs = parse_records(c)
                 for k, r in enumerate(recs):
                     nrecs += 1
                     fn, p = unhexs(r["fn"]), unhexs(r["p"])
@@ -116,11 +212,27 @@ def run(ctx):
                     nxt_lines.append("hdr cbskip %s" % b"".join(h for _, h in rest).hex())
                     nxt_spans.append((start + consumed, len(rest)))
             cur_lines, cur_spans = nxt_lines, nxt_spans
-        cov = {"evaluations": len(members), "distinct_nontrivial": nrecs,
+        # strings of 200 .. 70000 bytes: C only (the extracted model's list-based parser needs minutes for them); the
+        # invariant is evaluated directly on what the C returns, one member per line
+        llines = ["hdr cbskip %s" % h.hex() for _, h in long_members]
+        for ln, (s_, h_), c in zip(llines, long_members, common.run_lines_parallel([cexe], llines)):
+            total_cases += 1
+            if not complete_line(c):
+                viol.append({"property": PID, "kind": "abnormal", "case": ln, "observed": c[:300], "sig": "crash"})
+                continue
+            for r in parse_records(c):
+                nrecs += 1
+                fn, p = unhexs(r["fn"]), unhexs(r["p"])
+                if not lb.name_ok(fn) or not lb.path_ok(p):
+                    viol.append({"property": PID, "kind": "path-invariant", "stored_string": s_.hex()[:2000], "case": ln,
+                                 "filename": r["fn"][:300], "path": r["p"][:300], "sig": "path:" + r["p"][:16]})
+        cov = {"evaluations": len(members) + len(long_members), "distinct_nontrivial": nrecs,
                "rule": "every string over {'.','/','\\\\',0xFF,NUL,'a'} up to length %d (exhaustive) plus %d longer random strings, each "
                        "carried through 8 name sources (level-0/1 in-header name, path and filename extended headers, directory path, "
                        "three symlink forms) under OS types that do and do not fold case; non-trivial = header actually returned by "
-                       "the library (its path/filename were checked against the invariant)" % (maxlen, nrand),
+                       "the library (its path/filename were checked against the invariant); plus (extra_members) every byte 1..255 as a "
+                       "would-be separator under every OS type, the file-name / path headers at levels 1 and 3 and together with an in-header "
+                       "name, and strings of 200..70000 bytes with bad components at start / middle / end (these C only)" % (maxlen, nrand),
                "exhaustive": True, "headers_returned": nrecs, "driver_runs": total_cases,
                "distribution": dict(dist), "samples": [strings[7].hex(), strings[300].hex(), lines[0][:160]]}
         return {"violations": viol[:10], "mismatches": mism[:10], "coverage": cov,
@@ -135,8 +247,8 @@ def replay(payload):
         cexe = build(cb)
         out = common.run_lines_parallel([cexe], [payload["case"]])
         print("observed:", out[0][:600])
-        recs = parse_records(out[0])
-        bad = any(not lb.name_ok(unhexs(r["fn"])) or not lb.path_ok(unhexs(r["p"])) for r in recs)
+        recs = parse_records(out[0]) if complete_line(out[0]) else []
+        bad = not complete_line(out[0]) or any(not lb.name_ok(unhexs(r["fn"])) or not lb.path_ok(unhexs(r["p"])) for r in recs)
         print("REPRODUCED" if bad else "not reproduced")
         return 1 if bad else 0
     finally:
